@@ -254,12 +254,26 @@ def check_case(case, stats=None):
         if rootf['state'] not in FINAL:
             viol.append({'kind': 'not-final-after-skip',
                          'detail': {'state': rootf['state']}})
-        # on-skip absent in generated programs: on-success must be followed
+        # on-skip when the task has one, else on-success; never on-complete
         expected = _expected_after_skip(case['prog'], tname)
         got = sorted(n for n, ev in (ta['next_tasks'] or []))
         if expected is not None and got != expected:
-            viol.append({'kind': 'skip-did-not-follow-on-success',
+            viol.append({'kind': 'skip-did-not-follow-on-skip-or-on-success',
                          'detail': {'expected': expected, 'got': got}})
+        tdef = _all_tasks(case['prog']).get(tname) or {}
+        if tdef.get('publish-on-skip'):
+            tags.append('skip_with_on_skip_clause')
+            if (ta['published'] or {}) != tdef['publish-on-skip']:
+                viol.append({'kind': 'publish-on-skip-not-published',
+                             'detail': {'published': ta['published'],
+                                        'expected': tdef['publish-on-skip']}})
+            sk = [t for t in final['task'].values()
+                  if t['name'] == 'sk_' + tname
+                  and t['wf_ex_id'] == T['wf_ex_id']]
+            if len(sk) != 1 or sk[0]['state'] != 'SUCCESS':
+                viol.append({'kind': 'on-skip-task-did-not-run-once',
+                             'detail': {'instances': [t['state']
+                                                      for t in sk]}})
     if stats is not None:
         tg = G.tags(case['prog'], case['outcomes'])
         tg.append('mode_' + mode)
@@ -302,7 +316,8 @@ def _expected_after_skip(prog, tname):
     from mv.gen.workflows import clause_of
     for p in [prog] + list(prog.get('subs') or []):
         if tname in p['tasks']:
-            es = clause_of(p, tname, 'on-success')
+            es = p['tasks'][tname].get('on-skip') or \
+                clause_of(p, tname, 'on-success')
             if any(e.get('guard') for e in es):
                 return None
             return sorted(e['to'] for e in es
@@ -415,12 +430,29 @@ def strategy(max_tasks=6):
             prog, outc = G.gen_nested(D, F, max_tasks)
         else:
             prog, outc = G.gen_direct(D, F, max_tasks)
+        mode = D.choice(['rerun', 'rerun', 'rerun', 'skip'])
+        if mode == 'skip' and D.bool(0.6):
+            # the statement's other half of skip: publish-on-skip is
+            # published and on-skip is followed instead of on-success
+            for p_ in [prog] + list(prog.get('subs') or []):
+                for nm in list(p_['order']):
+                    if (outc.get(nm) or [['ok']])[0][0] != 'err' or \
+                            p_['tasks'][nm].get('with-items'):
+                        continue
+                    sk = 'sk_' + nm
+                    p_['tasks'][sk] = G.new_task()
+                    p_['tasks'][sk]['form'] = {'action': 'noop'}
+                    p_['order'].append(sk)
+                    outc[sk] = [['ok', 'a']]
+                    p_['tasks'][nm]['on-skip'] = [{'to': sk, 'guard': None}]
+                    p_['tasks'][nm]['publish-on-skip'] = {
+                        'ps_' + nm: 'tok-skip-' + nm}
         return {'prog': prog, 'outcomes': outc, 'input': {},
                 'async_parent': async_parent,
                 'sched': enginerun.gen_schedule(D, max_devs=4),
                 'sched2': enginerun.gen_schedule(D, max_devs=3),
                 'salt': D.int(0, 20), 'pick': D.int(0, 3),
-                'mode': D.choice(['rerun', 'rerun', 'rerun', 'skip']),
+                'mode': mode,
                 'reset': D.bool(0.6), 'repeat': 1 if D.bool(0.2) else 0,
                 'new': D.choice([['ok', 'a'], ['ok', 'a'], ['ok', 'b']])}
     return strat()
